@@ -239,6 +239,7 @@ impl Model {
 pub struct St {
     real: Real,
     model: Model,
+    hist: Vec<Op>,
 }
 
 fn cb<T, E: std::fmt::Debug>(r: Result<T, CallbackError<E, ()>>) -> Result<Result<T, E>, V> {
@@ -493,7 +494,7 @@ impl Machine for L2 {
     type St = St;
 
     fn init(&self) -> St {
-        St { real: Real::new(), model: Model::new() }
+        St { real: Real::new(), model: Model::new(), hist: vec![] }
     }
 
     fn ops(&self, st: &St, _depth: usize) -> Vec<Op> {
@@ -543,8 +544,19 @@ impl Machine for L2 {
 
     fn step(&self, st: &mut St, op: &Op) -> Result<String, V> {
         let class = apply(&mut st.real, &mut st.model, op)?;
+        st.hist.push(*op);
         compare(&mut st.real, &st.model)?;
         Ok(class)
+    }
+
+    /// cheap copy = replay of the (already accepted) history without the per-step comparison
+    fn fork(&self, st: &St) -> Option<St> {
+        let mut copy = self.init();
+        for op in &st.hist {
+            apply(&mut copy.real, &mut copy.model, op).ok()?;
+        }
+        copy.hist = st.hist.clone();
+        Some(copy)
     }
 
     /// Canonical form: open handles as the real lock table describes them (multiset of (substate, flags); ids
